@@ -163,6 +163,122 @@ fn oversize_probe(out: &mut Out, rng: &mut Rng) {
 	));
 }
 
+/// `clean_rewind_files` (last step of `check_compact`): before a compaction the directory gets old
+/// and fresh leaf-set snapshot files, look-alikes (`pmmr_leaf.binx`, a name equal to the prefix, a
+/// directory with a snapshot name, an unrelated old file, a file with an access time in the future)
+/// and EVERY file of the MMR itself is aged 48 h.  Afterwards: which of the names that were there
+/// are gone (compared with the model), and the MMR files must all still be there and the store
+/// must read as before (oracle).
+fn clean_probe(out: &mut Out, rng: &mut Rng) {
+	use std::time::{Duration, SystemTime};
+	let work = std::env::var("VERIF_WORK").expect("VERIF_WORK not set");
+	let dir = PathBuf::from(work).join("cleanprobe");
+	let mut n_deleted = 0u64;
+	let mut n_fail = 0u64;
+	let rounds = 6;
+	for round in 0..rounds {
+		let _ = std::fs::remove_dir_all(&dir);
+		std::fs::create_dir_all(&dir).unwrap();
+		let mut be: PMMRBackend<Elem> = PMMRBackend::new(&dir, true, ProtocolVersion(1), None).unwrap();
+		let mut size = 0u64;
+		let n = rng.range(4, 12);
+		for _ in 0..n {
+			let e = Elem(rng.bytes(8));
+			let mut p = PMMR::at(&mut be, size);
+			p.push(&e).unwrap();
+			size = p.size;
+		}
+		{
+			let mut p = PMMR::at(&mut be, size);
+			let _ = p.prune(0);
+			let _ = p.prune(1);
+		}
+		be.sync().unwrap();
+		let root0 = PMMR::at(&mut be, size).root();
+		// decoys: (name, age in seconds or None = future, directory?)
+		let day = 86_400u64;
+		let decoys: Vec<(String, Option<u64>, bool)> = vec![
+			(format!("pmmr_leaf.bin.{:016x}", rng.next()), Some(2 * day), false),
+			(format!("pmmr_leaf.bin.{:016x}", rng.next()), Some(day + 600), false),
+			(format!("pmmr_leaf.bin.{:016x}", rng.next()), Some(day - 3600), false),
+			(format!("pmmr_leaf.bin.{:016x}", rng.next()), Some(30), false),
+			("pmmr_leaf.binx".to_string(), Some(3 * day), false),
+			("pmmr_leaf.bin.".to_string(), Some(3 * day), false),
+			("pmmr_leaf.bin.dir".to_string(), Some(3 * day), true),
+			("unrelated.bin".to_string(), Some(5 * day), false),
+			("pmmr_leaf.bin.future".to_string(), None, false),
+		];
+		let now = SystemTime::now();
+		let set_age = |path: &std::path::Path, age: Option<u64>| {
+			let t = match age {
+				Some(a) => now - Duration::from_secs(a),
+				None => now + Duration::from_secs(3 * 86_400),
+			};
+			if let Ok(f) = std::fs::File::open(path) {
+				let _ = f.set_times(std::fs::FileTimes::new().set_accessed(t).set_modified(t));
+			}
+		};
+		for (name, age, is_dir) in decoys.iter() {
+			let p = dir.join(name);
+			if *is_dir {
+				std::fs::create_dir_all(&p).unwrap();
+			} else {
+				std::fs::write(&p, b"decoy").unwrap();
+			}
+			set_age(&p, *age);
+		}
+		let core = ["pmmr_hash.bin", "pmmr_data.bin", "pmmr_leaf.bin", "pmmr_prun.bin"];
+		let mut listing: Vec<String> = vec![];
+		for (name, age, is_dir) in decoys.iter() {
+			listing.push(format!("{}:{}:{}", name, age.map(|a| a.to_string()).unwrap_or_else(|| "-".to_string()), if *is_dir { "d" } else { "f" }));
+		}
+		for name in core.iter() {
+			if dir.join(name).exists() {
+				set_age(&dir.join(name), Some(2 * day));
+				// the compaction rewrites every one of them before it cleans up: fresh by then
+				listing.push(format!("{}:{}:f", name, 0));
+			}
+		}
+		let before: BTreeSet<String> = std::fs::read_dir(&dir).unwrap().map(|e| e.unwrap().file_name().to_string_lossy().to_string()).collect();
+		let rm = Bitmap::new();
+		let ok = be.check_compact(size, &rm).is_ok();
+		let after: BTreeSet<String> = std::fs::read_dir(&dir).unwrap().map(|e| e.unwrap().file_name().to_string_lossy().to_string()).collect();
+		let gone: Vec<String> = before.difference(&after).cloned().collect();
+		n_deleted += gone.len() as u64;
+		out.line(&format!("store clean [{}] @{}", listing.join(","), round), &format!("[{}]", gone.join(",")));
+		let mut fails = vec![];
+		if !ok {
+			fails.push("check_compact failed".to_string());
+		}
+		for name in core.iter() {
+			if before.contains(*name) && !after.contains(*name) {
+				fails.push(format!("{} was deleted by the clean-up", name));
+			}
+		}
+		let root1 = PMMR::at(&mut be, size).root();
+		if root0 != root1 {
+			fails.push(format!("root changed by the compaction with clean-up: {:?} -> {:?}", root0, root1));
+		}
+		drop(be);
+		match PMMRBackend::<Elem>::new(&dir, true, ProtocolVersion(1), None) {
+			Ok(mut be2) => {
+				if PMMR::at(&mut be2, size).root() != root0 {
+					fails.push("root after reopen differs".to_string());
+				}
+			}
+			Err(e) => fails.push(format!("reopen after the clean-up failed: {}", e)),
+		}
+		if !fails.is_empty() {
+			n_fail += 1;
+			out.raw(&format!("#ORACLE-FAIL C08 clean_rewind_files: {} | directory before: {:?}", fails.join("; "), before));
+		}
+	}
+	out.raw(&format!(
+		"#STAT [cleanprobe] compactions={} with aged decoys (old / fresh snapshots, look-alike names, a directory, future access time) and every MMR file aged 48 h: entries deleted={} (old snapshots only), oracle failures={}",
+		rounds, n_deleted, n_fail
+	));
+}
+
 /// Fixed-size element of 683 bytes (the record size of the rangeproof MMR).
 #[derive(Clone, Debug, PartialEq, Eq)]
 pub struct RpElem(pub Vec<u8>);
@@ -3763,6 +3879,7 @@ fn main() {
 		run_varopen(&mut out, &mut rng, h, u, l);
 		varopen_same_sum(&mut out, &mut rng, if thorough { 200 } else { 60 });
 		oversize_probe(&mut out, &mut rng);
+		clean_probe(&mut out, &mut rng);
 	}
 	if mode == "rough" || mode == "all" {
 		let (h, n) = if thorough { (20, 600) } else { (6, 400) };
